@@ -362,3 +362,94 @@ def arm_tests(func_node, target):
         if isinstance(s, ast.If) and any(any(x is target for x in ast.walk(b)) for b in s.body):
             out.append(s.test)
     return out
+
+
+# ------------------------------------------------------------------------------------------------
+# template matching with metavariables (rename-tolerant recognisers)
+# ------------------------------------------------------------------------------------------------
+def _pat(text: str):
+    """Parse a template. Names `_V_x` match any local Name (consistently, injectively); `_E_x` matches any
+    expression (consistently, by structure). A template that parses as an expression is an expression
+    pattern, otherwise a (single) statement pattern."""
+    try:
+        return ast.parse(text, mode="eval").body
+    except SyntaxError:
+        body = ast.parse(text).body
+        if len(body) != 1:
+            raise
+        return body[0]
+
+
+def tmatch(pat, node, b: dict) -> bool:
+    """Structural match of `node` against `pat`, extending binding `b` in place (caller copies)."""
+    if isinstance(pat, ast.Name) and pat.id.startswith("_V_"):
+        if not isinstance(node, ast.Name):
+            return False
+        if pat.id in b:
+            return b[pat.id] == node.id
+        if node.id in [v for k, v in b.items() if k.startswith("_V_")]:
+            return False
+        b[pat.id] = node.id
+        return True
+    if isinstance(pat, ast.Name) and pat.id.startswith("_E_"):
+        if not isinstance(node, ast.AST):
+            return False
+        t = ast.dump(node)
+        if pat.id in b:
+            return b[pat.id] == t
+        b[pat.id] = t
+        return True
+    if isinstance(pat, ast.Expr) and isinstance(node, ast.Expr):
+        return tmatch(pat.value, node.value, b)
+    if type(pat) is not type(node):
+        return False
+    for field in pat._fields:
+        if field in ("ctx", "type_comment", "kind"):
+            continue
+        pv, nv = getattr(pat, field, None), getattr(node, field, None)
+        if isinstance(pv, list):
+            if not isinstance(nv, list) or len(pv) != len(nv):
+                return False
+            for x, y in zip(pv, nv):
+                if isinstance(x, ast.AST):
+                    if not tmatch(x, y, b):
+                        return False
+                elif x != y:
+                    return False
+        elif isinstance(pv, ast.AST):
+            if not isinstance(nv, ast.AST) or not tmatch(pv, nv, b):
+                return False
+        elif pv != nv:
+            return False
+    return True
+
+
+def tfind(scope, template: str, b: dict | None = None):
+    """Yield (node, binding) for every node under `scope` (AST node or list of nodes) matching the
+    template under an extension of binding `b`."""
+    pat = _pat(template) if isinstance(template, str) else template
+    roots = scope if isinstance(scope, list) else [scope]
+    for r in roots:
+        for n in ast.walk(r):
+            if isinstance(pat, ast.stmt) != isinstance(n, ast.stmt):
+                continue
+            bb = dict(b or {})
+            if tmatch(pat, n, bb):
+                yield n, bb
+
+
+def tsolve(scope, templates: list[str], b: dict | None = None):
+    """First binding under which every template matches somewhere in `scope` (depth-first), with the matched
+    nodes; None if there is none."""
+    pats = [_pat(t) for t in templates]
+
+    def go(i, bind, nodes):
+        if i == len(pats):
+            return bind, nodes
+        for n, bb in tfind(scope, pats[i], bind):
+            r = go(i + 1, bb, nodes + [n])
+            if r is not None:
+                return r
+        return None
+
+    return go(0, dict(b or {}), [])
